@@ -29,7 +29,7 @@ def ids(sel):
 
 def collect():
     os.makedirs(SEEDED, exist_ok=True)
-    for d in sorted(glob.glob("/tmp/wt*-*/seeded/*")):
+    for d in sorted(glob.glob("/tmp/wt[0-9]*-*/seeded/*")):
         prop = d.split("/")[2].split("-")[1]
         name = os.path.basename(d)
         dst = os.path.join(SEEDED, name if name.startswith(prop + "-") else "%s-%s" % (prop, name))
@@ -72,19 +72,37 @@ def confirm(sel):
             shutil.rmtree(wt, ignore_errors=True)
 
 
-def detect(sel, tier="quick"):
-    assert run(["git", "-C", "/repo", "status", "--porcelain", "--untracked-files=no"]).stdout.strip() == "", \
-        "/repo has local modifications"
+def detect(sel, tier="quick", scratch=False):
+    """scratch=False: apply to /repo itself, run the check, undo (the documented way).
+    scratch=True: apply to a scratch copy of /repo and point the check at it with
+    SIMFILE_REPO - same check, same code, and /repo is never touched (safe while
+    background soaks read /repo)."""
+    if not scratch:
+        assert run(["git", "-C", "/repo", "status", "--porcelain", "--untracked-files=no"]).stdout.strip() == "", \
+            "/repo has local modifications"
     for sid in ids(sel):
         d = os.path.join(SEEDED, sid)
         meta = json.load(open(os.path.join(d, "meta.json")))
         prop = meta["property"]
-        a = run(["git", "-C", "/repo", "apply", os.path.join(d, "patch.diff")])
-        try:
-            assert a.returncode == 0, a.stderr
-            c = run([os.path.join(VERIF, "simcheck"), "check", prop, "--tier", tier], cwd=VERIF)
-        finally:
-            run(["git", "-C", "/repo", "checkout", "--", "."])
+        if scratch:
+            wt = os.path.expanduser("~/scratch/seeded-%s-%d" % (sid, os.getpid()))
+            shutil.rmtree(wt, ignore_errors=True)
+            os.makedirs(os.path.dirname(wt), exist_ok=True)
+            run(["rsync", "-a", "--exclude", ".git", "--exclude", "__pycache__", "/repo/", wt + "/"])
+            a = run(["patch", "-p1", "-i", os.path.join(d, "patch.diff")], cwd=wt)
+            try:
+                assert a.returncode == 0, a.stdout + a.stderr
+                c = run([os.path.join(VERIF, "simcheck"), "check", prop, "--tier", tier], cwd=VERIF,
+                        env=dict(os.environ, SIMFILE_REPO=wt))
+            finally:
+                shutil.rmtree(wt, ignore_errors=True)
+        else:
+            a = run(["git", "-C", "/repo", "apply", os.path.join(d, "patch.diff")])
+            try:
+                assert a.returncode == 0, a.stderr
+                c = run([os.path.join(VERIF, "simcheck"), "check", prop, "--tier", tier], cwd=VERIF)
+            finally:
+                run(["git", "-C", "/repo", "checkout", "--", "."])
         caught = c.returncode == 1 and ("VIOLATION property=%s" % prop) in c.stdout
         clause = [l.strip() for l in c.stdout.splitlines() if l.strip().startswith("clause:")]
         meta["detection"] = {"check": "./simcheck check %s --tier %s" % (prop, tier),
@@ -102,7 +120,9 @@ if __name__ == "__main__":
     elif cmd == "confirm":
         confirm(sys.argv[2:])
     elif cmd == "detect":
-        detect(sys.argv[2:])
+        args = sys.argv[2:]
+        scratch = "--scratch" in args
+        detect([a for a in args if a != "--scratch"], scratch=scratch)
 
 
 def table():
